@@ -1041,7 +1041,11 @@ func (p *partition) handleReplicationRequest(msg *nats.Msg) {
 	}
 	replicator, ok := p.replicators[req.ReplicaID]
 	if !ok {
-		panic(fmt.Sprintf("No replicator for partition %s and replica %s", p, req.ReplicaID))
+		// There is no replicator for the leader itself, so a request carrying
+		// the leader's id gets here. Drop it rather than crash.
+		p.srv.logger.Warnf("Received replication request for partition %s from replica %s "+
+			"which is not being replicated to", p, req.ReplicaID)
+		return
 	}
 	replicator.request(replicationRequest{req, msg, received})
 }
